@@ -23,6 +23,61 @@ HOOK_COMMITS = []
 
 # Manifest metadata per claimed property.
 META = {
+    "C01": {
+        "technique": "stateful property-based testing (rapid): generated multi-replica append/merge programs checked against a set-union reference model, convergence compared across replicas",
+        "text": "Generated histories (2-5 replicas, shared writers, both orderings, default and link-key codecs) followed by a complete exchange in generated pair order with repetitions; after every operation the entry set equals the set model and replicas with equal sets expose equal heads/published heads and, when the ordering is strict-total there, identical Values(); self/empty/foreign-id merges leave the full snapshot unchanged. Exploration only: thousands of histories up to ~40 (quick) / ~100 (thorough) operations.",
+        "note": "Trusts the harness's in-memory DAG store, its set model and registry; FirstWriteWins is not used as a log ordering; bounded by program size.",
+    },
+    "C02": {
+        "technique": "stateful property-based testing (rapid): invariant over every reachable state against heads recomputed from the harness registry",
+        "text": "After every operation of generated multi-replica histories, Heads/RawHeads/ToSnapshot/ToJSONLog heads of every replica are compared with the unreferenced members of the model set (computed by the harness, not with FindHeads). Exploration.",
+        "note": "Same trusted base as C01.",
+    },
+    "C03": {
+        "technique": "stateful property-based testing (rapid): Values() vs reference sort of the model set with the harness's own comparator",
+        "text": "After every operation Values() (and ToSnapshot().Values) is checked complete, duplicate-free, causal and equal to the reference sort when the ordering is strict-total on the set (order-free clauses otherwise). Exploration.",
+        "note": "Comparator re-implemented in the harness (time, clock-id bytes, hash string); trusts Go's sort.",
+    },
+    "C04": {
+        "technique": "stateful property-based testing (rapid): per-append postconditions against the model state preceding the append",
+        "text": "Every append in generated histories (incl. after merges, identity changes, rebuilds from entries, reloads from the store, initial clocks up to 2^40) is checked: next == model heads, clock id == writer key, time > every held time, single head, references within the causal past / disjoint from next / duplicate-free / <= floor(log2(pc))+2. Exploration.",
+        "note": "Times stay far below MaxInt; the reload step relies on the loaders (C09).",
+    },
+    "C05": {
+        "technique": "stateful property-based testing (rapid): first-seen digests of every entry (by hash and by object identity) re-checked after every operation on every replica",
+        "text": "After every operation every hash ever seen in a replica is still retrievable with an unchanged content digest, every entry object keeps its full digest (aliasing across replicas and loaded logs), Len never decreases, previous Values() is a subsequence of the new one (strict-total case). Exploration.",
+        "note": "Bounded merges excluded (C16); a rebuild/reload counts as the same log.",
+    },
+    "C06": {
+        "technique": "property-based testing (rapid): generated corruption plans and access policies over generated logs, oracle = harness-computed candidate set; snapshot comparison for atomicity",
+        "text": "Generated valid logs (three codecs) + corruption plans (9 kinds, any positions) + pure access policies; the harness computes the candidate set and decides whether the merge must fail (then full snapshot incl. the result of a following append is unchanged) or succeed with destination ∪ candidates; denied appends; every appended entry verifies and merges under every codec. Exploration.",
+        "note": "Access controller assumed pure and concurrency-safe; foreign-log-id entries are skipped silently as the first clause states.",
+    },
+    "C07": {
+        "technique": "property-based testing (rapid): metamorphic relation - 25 single-field mutations of a signed entry must all fail Verify",
+        "text": "Generated entries (binary payloads, 0-6 links, custom clocks, three codecs) are signed, verified, mutated in one signed field (or key/signature substituted) and must stop verifying. One class is a recorded known finding (payload bytes inside invalid UTF-8), excluded by construction and counted. Exploration.",
+        "note": "Log ids are valid UTF-8; deterministic RFC 6979 signatures with harness keys.",
+    },
+    "C08": {
+        "technique": "property-based testing (rapid): round-trip + differential against an independent canonical DAG-CBOR reference encoder + pinned vectors + two-process digest comparison",
+        "text": "Generated entries/manifests: stored bytes must equal the harness's own canonical encoder and hash to the CID; read-back equals the written entry field by field (default and link-key codecs); re-encoding the decoded entry gives the same CID; rebuilt-from-scratch values give identical bytes; the run digest is identical in a second process; 22 pinned interop vectors (v2/v1/v0) are recomputed bit-exact and legacy blocks decode to the fixture fields. Exploration.",
+        "note": "Reference encoder written from the observed wire format + RFC 7049 canonical rules; 'any process' sampled as two processes.",
+    },
+    "C15": {
+        "technique": "property-based testing (rapid): iterator output vs reference (descending reference sort of the registry's causal past, cut at the lower bound, first/last amount)",
+        "text": "Generated forked logs and every option combination (multi LTE related or not, LT, unknown bounds, GTE/GT inside the range, amounts 0..size+3); exact comparison when the ordering is strict-total on the range, order-free clauses otherwise; channel must be closed on success; no panic. Exploration. Found and repaired three defects.",
+        "note": "Reads 'down to the lower bound' as the ordering-based range (what traverse does); causal-descendant reading asserted as subset.",
+    },
+    "C16": {
+        "technique": "property-based testing (rapid): bounded merge vs suffix of the reference linearisation of the union; twin replica for n >= total",
+        "text": "Generated pairs of logs and bounds 0..total+3; result must be the last min(n,total) of the reference sort (exact when strict-total), heads the unreferenced among them, and n >= total identical to the unbounded merge of a twin. Exploration. Found and repaired the n > total panic.",
+        "note": "Same trusted base as C01.",
+    },
+    "C18": {
+        "technique": "property-based testing (rapid): stored bytes scanned for every binary/textual form of each link; round-trip with same / absent / different keys",
+        "text": "Generated link-encrypted entries and small logs: no form of any predecessor/reference/earlier block appears in the stored bytes and the block has no traversable links; same-key readers recover identical lists, verify, merge and load; no-key / other-key readers get no links. Exploration.",
+        "note": "Leak detection is by substring search over a fixed list of encodings (raw, multihash, digest, hex, base32/36/58/64).",
+    },
     "C19": {
         "technique": "property-based testing (rapid): order laws checked on all pairs/triples of generated entry pools; sort checked as metamorphic relation over generated permutations",
         "text": "Generated-input exploration: every ordered pair and triple of rapid-generated pools of synthetic entries (equal/unequal times, ids with prefix relations, distinct hashes) is checked against irreflexivity, antisymmetry, transitivity, totality, causality (smaller time first), FWW == -LWW, and every sorter is checked to be deterministic over shuffles, a permutation of its input and ordered. Pure functions, so tens of thousands of pools per run; no proof of the laws for all inputs.",
